@@ -8,6 +8,7 @@
 #include "romea_core_common/time/Time.hpp"
 #include "romea_core_common/regression/ransac/Ransac.hpp"
 #include "romea_core_common/regression/ransac/RansacModel.hpp"
+#include "romea_core_common/regression/leastsquares/NLSE.hpp"
 #include <limits>
 
 using namespace romea::core;
@@ -61,6 +62,43 @@ static void ransac(vh::Rng & r, vh::Out & out)
   sj += "]";
   out.put(vh::Ev("ransac").i("N", (long long)mod.N).i("m", (long long)mod.m).i("minInl", (long long)mod.minInl).raw("script", sj).vec("B", B)
     .i("draws", (long long)mod.draws).i("counts", (long long)mod.counts).i("refines", (long long)mod.refines).b("ret", ret));
+}
+
+// a scripted NLSE: one parameter, four rows, Jacobian 1, residual script[k] at the k-th evaluation
+struct ScriptedNlse : public NLSE<double>
+{
+  std::vector<long long> script; long long x0 = 0; size_t calls = 0, guesses = 0;
+  explicit ScriptedNlse(double eps) : NLSE<double>(eps) {}
+  void computeGuess_() override {++guesses; estimate_ = Vector::Constant(1, (double)x0);}
+  void computeJacobianAndY_() override
+  {
+    leastSquares_.setEstimateSize(1); leastSquares_.setDataSize(4);
+    leastSquares_.getJ().setOnes(); leastSquares_.getW().setOnes();
+    leastSquares_.getY().setConstant((double)(calls < script.size() ? script[calls] : 0));
+    ++calls;
+  }
+};
+
+static void nlse(vh::Rng & r, vh::Out & out)
+{
+  long long E = r.range(0, 3), S = r.range(0, 12), maxIt = r.range(0, 12);
+  ScriptedNlse m(0.7 * ((double)E + 0.5));
+  m.x0 = r.range(-20, 20);
+  int style = (int)r.range(0, 2);
+  for (int k = 0; k < 16; ++k) {
+    long long v = style == 0 ? r.range(-15, 15) : style == 1 ? (k < (int)r.range(0, 14) ? r.range(4, 15) : r.range(-3, 3)) : r.range(-(long long)(16 - k), 16 - k);
+    m.script.push_back(v);
+  }
+  bool ret = m.estimate((size_t)maxIt, ((double)S + 0.5) / 50.0);
+  bool ok = true;
+  long long est10 = vh::proj(m.getEstimate()(0) * 10.0, ok, 1e-6);
+  double rm = m.getRootMeanSquareError();
+  bool unset = rm == -1.0;
+  long long mse2 = unset ? 0 : vh::proj(rm * rm * 2.0, ok, 1e-6);
+  if (!ok) {est10 = -999999;}
+  out.put(vh::Ev("nlse").i("E", E).i("S", S).i("maxIt", maxIt).i("x0", m.x0).vec("r", m.script).b("ret", ret)
+    .i("iters", (long long)m.getNumberOfIterations()).i("calls", (long long)m.calls).i("guesses", (long long)m.guesses)
+    .i("est10", est10).b("rmseUnset", unset).i("mse2", mse2));
 }
 
 static void exec(vh::Rng & r, vh::Out & out)
@@ -125,7 +163,7 @@ int main(int argc, char ** argv)
   vh::Rng r(std::strtoull(argv[2], nullptr, 10));
   int n = std::atoi(argv[3]);
   vh::Out out(argv[4]);
-  for (int k = 0; k < n; ++k) {exec(r, out); if (k % 4 == 0) {ransac(r, out);}}
+  for (int k = 0; k < n; ++k) {exec(r, out); if (k % 4 == 0) {ransac(r, out);} nlse(r, out);}
   std::printf("%lld\n", out.lines);
   return 0;
 }
